@@ -38,10 +38,11 @@ static inline void pl_clear(struct pktlist *q) { q->len = 0; q->bytes = 0; }
 
 /* std::unordered_map<uint64, int> m_outstanding_packet_sizes: abstract function seq -> size observed at the ghost
  * key G_k; sum = ghost sum of all values */
-struct seqmap_int { bool has_G; int val_G; int64_t sum; size_t size; };
+/* bound: strict upper bound of the keys present (ghost): a key >= bound is certainly absent */
+struct seqmap_int { bool has_G; int val_G; int64_t sum; size_t size; uint64_t bound; };
 struct smi_it { bool end; uint64_t key; int val; };
 struct smi_it nondet_smi_it(void);
-#define SMI_OK(m) ((m).size < ((size_t)1 << 62) && BOOL_OK((m).has_G) && (m).sum >= 0 && (m).val_G >= 0 && ((m).has_G ? (m).sum >= (m).val_G : 1) && ((m).size == 0 ? ((m).sum == 0 && !(m).has_G) : 1))
+#define SMI_OK(m) ((m).size < ((size_t)1 << 62) && ((m).has_G ? G_k < (m).bound : 1) && (m).bound < ((uint64_t)1 << 62) && BOOL_OK((m).has_G) && (m).sum >= 0 && (m).val_G >= 0 && ((m).has_G ? (m).sum >= (m).val_G : 1) && ((m).size == 0 ? ((m).sum == 0 && !(m).has_G) : 1))
 int nondet_int(void);
 /* m[key] = v */
 static inline void smi_set(struct seqmap_int *m, uint64_t key, int v)
@@ -51,14 +52,19 @@ static inline void smi_set(struct seqmap_int *m, uint64_t key, int v)
     if (m->has_G) m->sum = m->sum - m->val_G + v; else { m->sum = m->sum + v; m->size = m->size + 1; }
     m->has_G = 1; m->val_G = v;
   }
+  else if (key >= m->bound)
+  {
+    m->sum = m->sum + v; m->size = m->size + 1;      /* certainly absent */
+  }
   else
   {
-    /* some other key: it may or may not be present already */
+    /* some other key below the bound: it may or may not be present already */
     int old = nondet_int(); bool present = nondet_bool();
     __CPROVER_assume(old >= 0 && (int64_t)old <= m->sum - (m->has_G ? m->val_G : 0));
     __CPROVER_assume(!present || m->size > (m->has_G ? (size_t)1 : (size_t)0));
     if (present) m->sum = m->sum - old + v; else { m->sum = m->sum + v; m->size = m->size + 1; }
   }
+  if (key >= m->bound) m->bound = key + 1;
 }
 static inline struct smi_it smi_find(struct seqmap_int *m, uint64_t key)
 {
@@ -76,7 +82,7 @@ static inline void smi_erase(struct seqmap_int *m, struct smi_it it)
   m->sum = m->sum - it.val; m->size = m->size - 1;
   if (m->size == 0) __CPROVER_assume(m->sum == 0 && !m->has_G);
 }
-static inline void smi_clear(struct seqmap_int *m) { m->has_G = 0; m->sum = 0; m->size = 0; }
+static inline void smi_clear(struct seqmap_int *m) { m->has_G = 0; m->sum = 0; m->size = 0; m->bound = 0; }
 
 /* std::map<uint64, packet> m_reorder_buffer: abstract function seq -> packet observed at G_k */
 struct seqmap_pkt { bool has_G; struct packet pkt_G; size_t size; };
